@@ -1,17 +1,30 @@
 /- C02 — the occurrence decisions of the code generator against the language of the
 content model: property theorems (only).
 
+The model of `UpdateAttributesEffectiveChoice` is the handler after the repair `fix:
+UpdateAttributesEffectiveChoice treats a merged group as a symmetrical sequence only when every
+attr of the group belongs to that sequence`: the handlers are total (`occurs : List Site → List
+Site`); before the repair `occurs` was partial (`none` = `AssertionError` in
+`reset_symmetrical_choices`, reachable from a valid schema, see `assertWitness_occurs`).
+
 A generated field that is **not a list** rejects a second occurrence of its element
 (`ParserError: Unknown property`), and a field **without default** (`min ≥ 1`, not a list)
 rejects a document that lacks the element. `occurs (sites p)` is what the three handlers
 `CalculateAttributePaths`, `UpdateAttributesEffectiveChoice`, `MergeAttributes` leave of the
 element sites of a content model `p`; `Matches p w` is the language of `p` (independent of the
 code). Vocabulary (`names`, `distinctNames`, `wf`) and helper lemmas:
-`Proofs/OccursBasic`, `Proofs/OccursSound`, `Proofs/OccursList`. -/
+`Proofs/OccursBasic`, `Proofs/OccursSound`, `Proofs/OccursList`; named model groups and `xs:all`
+(section 3): model `Gen/Groups`, vocabulary (`namesG`, `distinctG`, `wfG`, `liveG`) and lemmas
+`Proofs/OccursGroups`. -/
 import XsdataModel.Gen.Occurs
 import XsdataModel.Proofs.OccursBasic
 import XsdataModel.Proofs.OccursSound
 import XsdataModel.Proofs.OccursList
+import XsdataModel.Proofs.OccursGroups
+import XsdataModel.Proofs.AttrsField
+import XsdataModel.Proofs.Derive
+import XsdataModel.Proofs.Subst
+import XsdataModel.Proofs.SubstLift
 
 namespace Props.C02
 open Py Xs.Gen
@@ -40,7 +53,7 @@ theorem exP_matches : Matches exP [['a'], ['b']] :=
 
 /-- the fields the handlers produce for the running example: `a` required, `b` optional,
 `c` and `d` lists -/
-theorem exP_occurs : occurs (sites exP) = some [
+theorem exP_occurs : occurs (sites exP) = [
     { name := ['a'], index := 0, min := 1, max := 1, path := [⟨.s, 1, 1, 1⟩],
       choice := none, sequence := some 1 },
     { name := ['b'], index := 1, min := 0, max := 1, path := [⟨.s, 1, 1, 1⟩, ⟨.c, 2, 0, 1⟩],
@@ -51,13 +64,12 @@ theorem exP_occurs : occurs (sites exP) = some [
       path := [⟨.s, 1, 1, 1⟩, ⟨.s, 3, 0, maxsize⟩], choice := none, sequence := some 1 }] := by
   decide
 
-/-- **No AssertionError, one field per element, document order**: with pairwise distinct
-element names the three handlers succeed and keep exactly one field per element particle. -/
+/-- **One field per element, document order**: with pairwise distinct element names the three
+handlers keep exactly one field per element particle. -/
 theorem occurs_distinct (p : Particle) (hd : distinctNames p = true) :
-    ∃ ss, occurs (sites p) = some ss ∧ ss.map (·.name) = names p := by
+    (occurs (sites p)).map (·.name) = names p := by
   have hd' : (names p).Nodup := of_decide_eq_true hd
-  refine ⟨_, occurs_sites p hd', ?_⟩
-  rw [← calculatePaths_eq_map, calculatePaths_names, sites_names]
+  rw [occurs_sites p hd', ← calculatePaths_eq_map, calculatePaths_names, sites_names]
 
 example : distinctNames exP = true := by decide
 
@@ -66,52 +78,52 @@ for element `s.name` is not a list, no word of the content model contains `s.nam
 once. (No well-formedness of the occurrence ranges is needed.) -/
 theorem nonlist_sound (p : Particle) (hd : distinctNames p = true)
     (w : List Str) (hw : Matches p w)
-    (ss : List Site) (h : occurs (sites p) = some ss) (s : Site) (hs : s ∈ ss)
+    (s : Site) (hs : s ∈ occurs (sites p))
     (hl : s.isList = false) : w.count s.name ≤ 1 :=
-  nonlist_sound_core p (of_decide_eq_true hd) w hw ss h s hs hl
+  nonlist_sound_core p (of_decide_eq_true hd) w hw s hs hl
 
 /-- the hypotheses are satisfiable: field `b` of the running example, word `[a, b]` -/
 example : List.count ['b'] [['a'], ['b']] ≤ 1 :=
-  nonlist_sound exP (by decide) _ exP_matches _ exP_occurs
+  nonlist_sound exP (by decide) _ exP_matches
     { name := ['b'], index := 1, min := 0, max := 1, path := [⟨.s, 1, 1, 1⟩, ⟨.c, 2, 0, 1⟩],
-      choice := some 2, sequence := some 1 } (by decide) (by decide)
+      choice := some 2, sequence := some 1 } (by rw [exP_occurs]; decide) (by decide)
 
 /-- **A required non-list field always finds its element exactly once**: if the field has
 `min ≥ 1` (no default, so the strict parser insists on it) and is not a list, every word of
 the content model contains the element exactly once. -/
 theorem required_sound (p : Particle) (hd : distinctNames p = true) (hwf : wf p = true)
     (w : List Str) (hw : Matches p w)
-    (ss : List Site) (h : occurs (sites p) = some ss) (s : Site) (hs : s ∈ ss)
+    (s : Site) (hs : s ∈ occurs (sites p))
     (hr : s.min ≥ 1) (hl : s.isList = false) : w.count s.name = 1 :=
-  required_sound_core p (of_decide_eq_true hd) hwf w hw ss h s hs hr hl
+  required_sound_core p (of_decide_eq_true hd) hwf w hw s hs hr hl
 
 /-- the hypotheses are satisfiable: field `a` of the running example, word `[a, b]` -/
 example : List.count ['a'] [['a'], ['b']] = 1 :=
-  required_sound exP (by decide) (by decide) _ exP_matches _ exP_occurs
+  required_sound exP (by decide) (by decide) _ exP_matches
     { name := ['a'], index := 0, min := 1, max := 1, path := [⟨.s, 1, 1, 1⟩],
-      choice := none, sequence := some 1 } (by decide) (by decide) (by decide)
+      choice := none, sequence := some 1 } (by rw [exP_occurs]; decide) (by decide) (by decide)
 
 /-- **Converse sanity — list fields are needed**: if the occurrence ranges are non-empty (`wf`)
 and every choice has at least one alternative (`live`; otherwise the language may be empty),
 a field the generator makes a list does occur twice in some word of the content model. -/
 theorem list_needed (p : Particle) (hd : distinctNames p = true) (hwf : wf p = true)
     (hlive : live p = true)
-    (ss : List Site) (h : occurs (sites p) = some ss) (s : Site) (hs : s ∈ ss)
+    (s : Site) (hs : s ∈ occurs (sites p))
     (hl : s.isList = true) : ∃ w, Matches p w ∧ 2 ≤ w.count s.name :=
-  list_needed_core p (of_decide_eq_true hd) hwf hlive ss h s hs hl
+  list_needed_core p (of_decide_eq_true hd) hwf hlive s hs hl
 
 /-- the hypotheses are satisfiable: field `c` of the running example -/
 example : ∃ w, Matches exP w ∧ 2 ≤ w.count ['c'] :=
-  list_needed exP (by decide) (by decide) (by decide) _ exP_occurs
+  list_needed exP (by decide) (by decide) (by decide)
     { name := ['c'], index := 2, min := 0, max := maxsize, path := [⟨.s, 1, 1, 1⟩, ⟨.c, 2, 0, 1⟩],
-      choice := some 2, sequence := some 1 } (by decide) (by decide)
+      choice := some 2, sequence := some 1 } (by rw [exP_occurs]; decide) (by decide)
 
 /-! ## 2. the full statement fails: two sites with the same name -/
 
 /-- the statement of `nonlist_sound` without the restriction to distinct names -/
 def NonlistSound : Prop :=
-  ∀ (p : Particle) (w : List Str) (ss : List Site) (s : Site), wf p = true → Matches p w →
-    occurs (sites p) = some ss → s ∈ ss → s.isList = false → w.count s.name ≤ 1
+  ∀ (p : Particle) (w : List Str) (s : Site), wf p = true → Matches p w →
+    s ∈ occurs (sites p) → s.isList = false → w.count s.name ≤ 1
 
 /-- `((a | b), (a | c))` -/
 def badP : Particle :=
@@ -135,7 +147,7 @@ theorem badP_matches : Matches badP [['a'], ['a']] :=
           exact choiceOnce_cons.2 (Or.inl ha)), rfl⟩,
         seqOnce_nil.2 rfl, rfl⟩, rfl⟩), rfl⟩
 
-theorem badP_occurs : occurs (sites badP) = some [
+theorem badP_occurs : occurs (sites badP) = [
     { name := ['a'], index := 0, min := 0, max := 1, path := [⟨.s, 1, 1, 1⟩, ⟨.c, 2, 1, 1⟩],
       choice := some 2, sequence := some 1 },
     { name := ['b'], index := 1, min := 0, max := 1, path := [⟨.s, 1, 1, 1⟩, ⟨.c, 2, 1, 1⟩],
@@ -150,10 +162,500 @@ theorem badP_occurs : occurs (sites badP) = some [
 so `a` becomes a single optional non-list field — but `<a/><a/>` is schema-valid. -/
 theorem nonlist_sound_false : ¬ NonlistSound := by
   intro h
-  have := h badP [['a'], ['a']] _
+  have := h badP [['a'], ['a']]
     { name := ['a'], index := 0, min := 0, max := 1, path := [⟨.s, 1, 1, 1⟩, ⟨.c, 2, 1, 1⟩],
       choice := some 2, sequence := some 1 }
-    (by decide) badP_matches badP_occurs (by decide) (by decide)
+    (by decide) badP_matches (by rw [badP_occurs]; decide) (by decide)
   exact absurd this (by decide)
+
+/-! ## 2b. the handlers are total: the former `AssertionError` -/
+
+/-- `((b | c | d)? | (a, a, d)?)` — a valid schema on which generation died before the repair:
+the merged group of `d … d` contains attrs of the sequence (`a`, `d`) and an attr outside of any
+sequence (`d` of the inner choice) -/
+def assertWitness : Particle :=
+  .choice 1 1 [.choice 0 1 [.elem ['b'] 1 1, .elem ['c'] 1 1, .elem ['d'] 1 1],
+               .seq 0 1 [.elem ['a'] 1 1, .elem ['a'] 1 1, .elem ['d'] 1 1]]
+
+/-- **Repaired** (`fixed: … AssertionError in reset_symmetrical_choices`): the group is not taken
+for a symmetrical sequence, the class gets optional `b`, `c` and list fields `d`, `a`. -/
+theorem assertWitness_occurs : occurs (sites assertWitness) = [
+    { name := ['b'], index := 0, min := 0, max := 1, path := [⟨.c, 1, 1, 1⟩, ⟨.c, 2, 0, 1⟩],
+      choice := some 1, sequence := none },
+    { name := ['c'], index := 1, min := 0, max := 1, path := [⟨.c, 1, 1, 1⟩, ⟨.c, 2, 0, 1⟩],
+      choice := some 1, sequence := none },
+    { name := ['d'], index := 2, min := 0, max := 2, path := [⟨.c, 1, 1, 1⟩, ⟨.c, 2, 0, 1⟩],
+      choice := some (-1), sequence := none },
+    { name := ['a'], index := 3, min := 0, max := 2, path := [⟨.c, 1, 1, 1⟩, ⟨.s, 3, 0, 1⟩],
+      choice := some (-1), sequence := some 3 }] := by
+  decide
+
+/-- the fields of the witness are sound although its names repeat: `d` and `a` are lists -/
+example : (occurs (sites assertWitness)).all (fun s => s.isList || (s.name != ['a'] && s.name != ['d'])) = true := by
+  decide
+
+/-! ## 3. named model groups (`xs:group`) and `xs:all`
+
+`GMatches defs p` is the language of a content model `p` that may contain `xs:all` and references
+`<xs:group ref=… minOccurs maxOccurs/>` to the named groups `defs`; `occursG defs p` is what
+`SchemaMapper`, the UNGROUP step (`FlattenAttributeGroups` → `copy_group_attributes`: clones of
+the group's attrs, `path = reference's path ++ clone's path`, ids of the definition shared by all
+references) and the three FLATTEN handlers leave of it. Every reference gets its own occurrence
+product: the statements of section 1 hold class by class. -/
+
+/-- a running example: `<xs:group name="g"><xs:sequence>a, b?</xs:sequence></xs:group>` … -/
+def exDefs : GroupDefs := [(['g'], .seq 1 1 [.elem ['a'] 1 1, .elem ['b'] 0 1])]
+/-- … referenced once inside a sequence: `(x, g)` … -/
+def exT1 : GParticle := .seq 1 1 [.elem ['x'] 1 1, .ref ['g'] 1 1]
+/-- … and as the whole content with `minOccurs="0" maxOccurs="unbounded"`: `g*` -/
+def exT2 : GParticle := .ref ['g'] 0 maxsize
+/-- `xs:all(p, q?)` -/
+def exT3 : GParticle := .all 1 1 [.elem ['p'] 1 1, .elem ['q'] 0 1]
+
+theorem exG_word_a : groupLang exDefs 1 ['g'] [['a']] :=
+  (groupLang_succ (k := 0) rfl).2 (gmatchesW_seq.2 ⟨[[['a']]], by decide, (by
+    intro x hx
+    rw [List.mem_singleton.1 hx]
+    exact gseqOnce_cons.2 ⟨[['a']], [], gmatchesW_elem.2 ⟨1, by decide, rfl⟩,
+      gseqOnce_cons.2 ⟨[], [], gmatchesW_elem.2 ⟨0, by decide, rfl⟩, gseqOnce_nil.2 rfl, rfl⟩,
+      rfl⟩), rfl⟩)
+
+/-- `[x, a]` is a word of `(x, g)` -/
+theorem exT1_matches : GMatches exDefs exT1 [['x'], ['a']] :=
+  gmatchesW_seq.2 ⟨[[['x'], ['a']]], by decide, (by
+    intro y hy
+    rw [List.mem_singleton.1 hy]
+    exact gseqOnce_cons.2 ⟨[['x']], [['a']], gmatchesW_elem.2 ⟨1, by decide, rfl⟩,
+      gseqOnce_cons.2 ⟨[['a']], [], gmatchesW_ref.2 ⟨[[['a']]], by decide, (by
+        intro z hz
+        rw [List.mem_singleton.1 hz]
+        exact exG_word_a), rfl⟩, gseqOnce_nil.2 rfl, rfl⟩, rfl⟩), rfl⟩
+
+/-- `[q, p]` is a word of `xs:all(p, q?)`: any order -/
+theorem exT3_matches : GMatches exDefs exT3 [['q'], ['p']] :=
+  gmatchesW_all.2 ⟨[[['q'], ['p']]], by decide, (by
+    intro y hy
+    rw [List.mem_singleton.1 hy]
+    exact ⟨[['p'], ['q']], gseqOnce_cons.2 ⟨[['p']], [['q']], gmatchesW_elem.2 ⟨1, by decide, rfl⟩,
+      gseqOnce_cons.2 ⟨[['q']], [], gmatchesW_elem.2 ⟨1, by decide, rfl⟩, gseqOnce_nil.2 rfl, rfl⟩,
+      rfl⟩, List.Perm.swap _ _ _⟩), rfl⟩
+
+/-- the class of `(x, g)`: `x`, `a` required, `b` optional … -/
+theorem exT1_occurs : occursG exDefs exT1 = some [
+    { name := ['x'], index := 6, min := 1, max := 1, path := [⟨.s, 5, 1, 1⟩],
+      choice := none, sequence := some 5 },
+    { name := ['a'], index := 3, min := 1, max := 1,
+      path := [⟨.s, 5, 1, 1⟩, ⟨.g, 7, 1, 1⟩, ⟨.g, 1, 1, 1⟩, ⟨.s, 2, 1, 1⟩],
+      choice := none, sequence := some 5 },
+    { name := ['b'], index := 4, min := 0, max := 1,
+      path := [⟨.s, 5, 1, 1⟩, ⟨.g, 7, 1, 1⟩, ⟨.g, 1, 1, 1⟩, ⟨.s, 2, 1, 1⟩],
+      choice := none, sequence := some 5 }] := by
+  decide
+
+/-- … the class of `g*`: the same two declarations (same ids `1`, `2` of the definition on the
+path, same `index`), now optional lists: each reference has its own occurrence product -/
+theorem exT2_occurs : occursG exDefs exT2 = some [
+    { name := ['a'], index := 3, min := 0, max := maxsize,
+      path := [⟨.g, 5, 0, maxsize⟩, ⟨.g, 1, 1, 1⟩, ⟨.s, 2, 1, 1⟩],
+      choice := none, sequence := some 2 },
+    { name := ['b'], index := 4, min := 0, max := maxsize,
+      path := [⟨.g, 5, 0, maxsize⟩, ⟨.g, 1, 1, 1⟩, ⟨.s, 2, 1, 1⟩],
+      choice := none, sequence := some 2 }] := by
+  decide
+
+theorem exT3_occurs : occursG exDefs exT3 = some [
+    { name := ['p'], index := 6, min := 1, max := 1, path := [⟨.a, 5, 1, 1⟩] },
+    { name := ['q'], index := 7, min := 0, max := 1, path := [⟨.a, 5, 1, 1⟩] }] := by
+  decide
+
+/-- **Groups and `xs:all`: a non-list field never sees its element twice.** For every schema
+`defs`, every content model `p` over it whose expansion uses each element name once, every word
+of its language and every field the generator produces for the class. -/
+theorem nonlist_sound_groups (defs : GroupDefs) (p : GParticle) (hd : distinctG defs p = true)
+    (w : List Str) (hw : GMatches defs p w)
+    (ss : List Site) (h : occursG defs p = some ss) (s : Site) (hs : s ∈ ss)
+    (hl : s.isList = false) : w.count s.name ≤ 1 :=
+  nonlist_sound_groups_core defs p (of_decide_eq_true hd) w hw ss h s hs hl
+
+/-- the hypotheses are satisfiable: field `a` of `(x, g)`, word `[x, a]` -/
+example : List.count ['a'] [['x'], ['a']] ≤ 1 :=
+  nonlist_sound_groups exDefs exT1 (by decide) _ exT1_matches _ exT1_occurs
+    { name := ['a'], index := 3, min := 1, max := 1,
+      path := [⟨.s, 5, 1, 1⟩, ⟨.g, 7, 1, 1⟩, ⟨.g, 1, 1, 1⟩, ⟨.s, 2, 1, 1⟩],
+      choice := none, sequence := some 5 } (by decide) (by decide)
+
+/-- **Groups and `xs:all`: a required non-list field always finds its element exactly once.** -/
+theorem required_sound_groups (defs : GroupDefs) (p : GParticle) (hd : distinctG defs p = true)
+    (hwf : wfG defs p = true) (w : List Str) (hw : GMatches defs p w)
+    (ss : List Site) (h : occursG defs p = some ss) (s : Site) (hs : s ∈ ss)
+    (hr : s.min ≥ 1) (hl : s.isList = false) : w.count s.name = 1 :=
+  required_sound_groups_core defs p (of_decide_eq_true hd) hwf w hw ss h s hs hr hl
+
+/-- the hypotheses are satisfiable: field `a` of `(x, g)`, word `[x, a]` … -/
+example : List.count ['a'] [['x'], ['a']] = 1 :=
+  required_sound_groups exDefs exT1 (by decide) (by decide) _ exT1_matches _ exT1_occurs
+    { name := ['a'], index := 3, min := 1, max := 1,
+      path := [⟨.s, 5, 1, 1⟩, ⟨.g, 7, 1, 1⟩, ⟨.g, 1, 1, 1⟩, ⟨.s, 2, 1, 1⟩],
+      choice := none, sequence := some 5 } (by decide) (by decide) (by decide)
+
+/-- … and field `p` of `xs:all(p, q?)` with the word `[q, p]` -/
+example : List.count ['p'] [['q'], ['p']] = 1 :=
+  required_sound_groups exDefs exT3 (by decide) (by decide) _ exT3_matches _ exT3_occurs
+    { name := ['p'], index := 6, min := 1, max := 1, path := [⟨.a, 5, 1, 1⟩] }
+    (by decide) (by decide) (by decide)
+
+/-- **Groups and `xs:all`: list fields are needed** (`resolves`, every reference names a group, not
+circularly, is implied by `occursG … = some _`). -/
+theorem list_needed_groups (defs : GroupDefs) (p : GParticle) (hd : distinctG defs p = true)
+    (hwf : wfG defs p = true) (hlive : liveG defs p = true)
+    (ss : List Site) (h : occursG defs p = some ss) (s : Site) (hs : s ∈ ss)
+    (hl : s.isList = true) : ∃ w, GMatches defs p w ∧ 2 ≤ w.count s.name :=
+  list_needed_groups_core defs p (of_decide_eq_true hd) hwf hlive ss h s hs hl
+
+/-- the hypotheses are satisfiable: field `a` of `g*` -/
+example : ∃ w, GMatches exDefs exT2 w ∧ 2 ≤ w.count ['a'] :=
+  list_needed_groups exDefs exT2 (by decide) (by decide) (by decide) _ exT2_occurs
+    { name := ['a'], index := 3, min := 0, max := maxsize,
+      path := [⟨.g, 5, 0, maxsize⟩, ⟨.g, 1, 1, 1⟩, ⟨.s, 2, 1, 1⟩],
+      choice := none, sequence := some 2 } (by decide) (by decide)
+
+/-- a dangling reference makes generation fail (`CodegenError: Unknown group reference`) -/
+theorem dangling_reference_fails : occursG exDefs (.ref ['h'] 1 1) = none := by decide
+
+/-! ## 4. `use` / `default` / `fixed`: requiredness and default of the generated field
+
+`attrField d` / `elemField d` : the dataclass field (or none) the pipeline generates for an
+`xs:attribute` / `xs:element` declaration (`SchemaMapper.build_class_attribute`,
+`SanitizeAttributesDefaultValue`, `ValidateAttributesOverrides`, `Filters.field_definition`;
+model `Gen/Attrs`, case analyses `Proofs/AttrsField`). `AttrDecl.allows` / `normalized` : what a
+valid element may carry for the declaration and its schema-normalized value (Spec). -/
+
+/-- **Attributes are read faithfully**: for every valid declaration, whatever a schema-valid
+element carries for it (`allows`), the strict parser accepts it and the field holds the
+schema-normalized value: the given value, or the `default` / `fixed` value of an absent
+attribute, or nothing. -/
+theorem attribute_faithful (d : AttrDecl) (hwf : d.wf = true) (x : Option Str) (hx : d.allows x) :
+    readAttr (attrField d) x = some (d.normalized x) :=
+  attribute_faithful_core d hwf x hx
+
+/-- the hypotheses are satisfiable: `use="optional" default="dv"`, attribute absent → `dv` -/
+example : readAttr (attrField { default := some ['d', 'v'] }) none = some (some ['d', 'v']) :=
+  attribute_faithful { default := some ['d', 'v'] } (by decide) none (by simp [AttrDecl.allows])
+
+/-- **A required attribute field is present in every valid document**: a field without default
+(the constructor demands it) only comes from `use="required"`, and then no valid element lacks
+the attribute. -/
+theorem attribute_required_sound (d : AttrDecl) (f : Field) (h : attrField d = some f)
+    (hm : f.default = .missing) : d.use = .required ∧ ¬ d.allows none :=
+  attribute_required_sound_core d f h hm
+
+example : attrField { use := .required } = some { init := true, default := .missing } := by decide
+
+/-- a prohibited attribute gives no field: under `fail_on_unknown_attributes` a document that
+carries it is rejected, as the schema demands -/
+theorem attribute_prohibited (d : AttrDecl) (h : d.use = .prohibited) : attrField d = none := by
+  obtain ⟨use, dflt, fx, tp⟩ := d
+  simp only at h
+  subst h
+  cases dflt <;> cases fx <;> cases tp <;>
+    simp [attrField, fieldOf, sanitize, mapAttribute, shouldResetRequired, shouldResetDefault,
+      defaultValue, typeIsObject, useBounds, GAttr.isList]
+
+/-- **An element field without default belongs to a required single element**: `min ≥ 1`,
+`max = 1` (with `required_sound`: the element is present exactly once in every valid document),
+no `default`/`fixed`, a declared type. -/
+theorem element_missing_default (d : ElemDecl) (f : Field) (h : elemField d = some f)
+    (hm : f.default = .missing) :
+    d.min ≥ 1 ∧ d.max = 1 ∧ d.default = none ∧ d.fixed = none ∧ d.type = .str :=
+  element_missing_default_core d f h hm
+
+example : elemField {} = some { init := true, default := .missing } := by decide
+
+/-- **An element field is a list exactly when the element may repeat** -/
+theorem element_list_iff (d : ElemDecl) (f : Field) (h : elemField d = some f) :
+    f.default = .listFactory ↔ d.max > 1 :=
+  element_list_iff_core d f h
+
+example : elemField { min := 0, max := 3 } = some { init := true, default := .listFactory } := by
+  decide
+
+/-- **An absent optional element is not conjured up from a default**: with `minOccurs="0"` the
+field defaults to `None` whatever `default` / `fixed` the declaration has (XSD applies element
+defaults to *empty present* elements only). -/
+theorem element_optional_absent (d : ElemDecl) (hmin : d.min = 0) (hmax : d.max = 1) :
+    elemField d = some { init := true, default := .none } :=
+  element_optional_absent_core d hmin hmax
+
+example : elemField { min := 0, fixed := some ['f'] } = some { init := true, default := .none } :=
+  element_optional_absent { min := 0, fixed := some ['f'] } rfl rfl
+
+/-- a required single element keeps its `default` / `fixed` value as field default
+(`init=False` for `fixed`) -/
+theorem element_required_default (d : ElemDecl) (hmin : d.min ≥ 1) (hmax : d.max = 1) (v : Str)
+    (hv : defaultValue d.default d.fixed = some v) :
+    elemField d = some { init := d.fixed.isNone, default := .value v } :=
+  element_required_default_core d hmin hmax v hv
+
+example : elemField { fixed := some ['f'] } = some { init := false, default := .value ['f'] } :=
+  element_required_default { fixed := some ['f'] } (by decide) rfl ['f'] rfl
+
+/-! ## 5. derived complex types: restriction overrides, extension
+
+Restriction: the class of the derived type re-declares the elements of its content model;
+`ValidateAttributesOverrides.validate_override` reconciles each with the inherited field of the same
+name (`Gen/Derive`: `validateOverride`, `effective`). The derived type's own decisions are sound
+for its content model by sections 1 and 3; the override may only *widen* them.
+Extension: the class keeps the python base class; the content model of the derived type is
+`sequence(base content, extension content)`. -/
+
+/-- **An override never narrows**: the field the derived class ends up with (its own, or the
+inherited one when `validate_override` removes the re-declaration) is a list whenever the
+re-declaration asks for a list, is optional exactly when the re-declaration is, and is prohibited
+exactly when the re-declaration is. So a non-list field of the derived class never has to hold two
+values and a required one is present in every document valid for the restricted type. -/
+theorem override_never_narrows (c p : OAttr) :
+    (c.isList = true → (effective c p).isList = true) ∧
+    (effective c p).isOptional = c.isOptional ∧
+    (effective c p).isProhibited = c.isProhibited :=
+  ⟨effective_list c p, effective_optional c p, effective_prohibited c p⟩
+
+/-- base `c*` restricted to `c` (1..1): the derived field becomes a list like the inherited one,
+and stays required -/
+example : effective { min := 1, max := 1 } { min := 0, max := maxsize } =
+    { min := 1, max := maxsize } := by decide
+
+/-- **The base class field never stops being a list** when `validate_override` changes it in place
+(it is turned into a list when a derived class re-declares the element as a list). -/
+theorem override_parent_stays_list (c p : OAttr) (h : p.isList = true) :
+    (validateOverride c p).2.isList = true :=
+  parent_stays_list c p h
+
+example : (validateOverride { min := 1, max := 1 } { min := 0, max := 5 }).2.isList = true :=
+  override_parent_stays_list _ _ (by decide)
+
+/-- a restriction that leaves out an optional element of its base: `prohibit_parent_attrs` gives the
+derived class a prohibited field (`max_occurs = 0`, rendered `init=False`, metadata type `Ignore`),
+so the strict parser rejects the element for the derived type -/
+theorem restriction_prohibits_omitted :
+    restrictClass [(['a'], { min := 1, max := 1 }), (['b'], { min := 0, max := 1 })]
+                  [(['a'], { min := 1, max := 1 })] =
+      ([(['b'], { min := 0, max := 0 })],
+       [(['a'], { min := 1, max := 1 }), (['b'], { min := 0, max := 1 })]) := by
+  decide
+
+/-- **Extension: inherited and own fields are sound for `sequence(base, extension)`** — a non-list
+field (of the base class, computed from the base content model `pa`, or of the derived class,
+computed from the extension's content model `pb`) never sees its element twice in a word of the
+derived type's content model. -/
+theorem extension_nonlist_sound (pa pb : Particle) (hd : (names pa ++ names pb).Nodup)
+    (w : List Str) (hw : Matches (.seq 1 1 [pa, pb]) w)
+    (s : Site) (hs : s ∈ occurs (sites pa) ++ occurs (sites pb)) (hl : s.isList = false) :
+    w.count s.name ≤ 1 :=
+  extension_nonlist_core pa pb hd w hw s hs hl
+
+/-- **Extension: a required non-list field finds its element exactly once** -/
+theorem extension_required_sound (pa pb : Particle) (hd : (names pa ++ names pb).Nodup)
+    (hwa : wf pa = true) (hwb : wf pb = true)
+    (w : List Str) (hw : Matches (.seq 1 1 [pa, pb]) w)
+    (s : Site) (hs : s ∈ occurs (sites pa) ++ occurs (sites pb)) (hr : s.min ≥ 1)
+    (hl : s.isList = false) : w.count s.name = 1 :=
+  extension_required_core pa pb hd hwa hwb w hw s hs hr hl
+
+/-- base `(x)`, extension `(y?)` -/
+def extA : Particle := .seq 1 1 [.elem ['x'] 1 1]
+def extB : Particle := .seq 1 1 [.elem ['y'] 0 1]
+
+theorem ext_matches : Matches (.seq 1 1 [extA, extB]) [['x']] :=
+  matches_seq.2 ⟨[[['x']]], by decide, (by
+    intro z hz
+    rw [List.mem_singleton.1 hz]
+    exact seqOnce_cons.2 ⟨[['x']], [],
+      matches_seq.2 ⟨[[['x']]], by decide, (by
+        intro u hu
+        rw [List.mem_singleton.1 hu]
+        exact seqOnce_cons.2 ⟨[['x']], [], matches_elem.2 ⟨1, by decide, rfl⟩, seqOnce_nil.2 rfl, rfl⟩),
+        rfl⟩,
+      seqOnce_cons.2 ⟨[], [],
+        matches_seq.2 ⟨[[]], by decide, (by
+          intro u hu
+          rw [List.mem_singleton.1 hu]
+          exact seqOnce_cons.2 ⟨[], [], matches_elem.2 ⟨0, by decide, rfl⟩, seqOnce_nil.2 rfl, rfl⟩),
+          rfl⟩,
+        seqOnce_nil.2 rfl, rfl⟩, rfl⟩), rfl⟩
+
+theorem extA_occurs : occurs (sites extA) = [
+    { name := ['x'], index := 0, min := 1, max := 1, path := [⟨.s, 1, 1, 1⟩], sequence := some 1 }] := by
+  decide
+
+theorem extB_occurs : occurs (sites extB) = [
+    { name := ['y'], index := 0, min := 0, max := 1, path := [⟨.s, 1, 1, 1⟩], sequence := some 1 }] := by
+  decide
+
+/-- the hypotheses are satisfiable: the inherited field `x`, word `[x]` -/
+example : List.count ['x'] [['x']] = 1 :=
+  extension_required_sound extA extB (by decide) (by decide) (by decide) _ ext_matches
+    { name := ['x'], index := 0, min := 1, max := 1, path := [⟨.s, 1, 1, 1⟩], sequence := some 1 }
+    (by rw [extA_occurs, extB_occurs]; decide) (by decide) (by decide)
+
+example : List.count ['y'] [['x']] ≤ 1 :=
+  extension_nonlist_sound extA extB (by decide) _ ext_matches
+    { name := ['y'], index := 0, min := 0, max := 1, path := [⟨.s, 1, 1, 1⟩], sequence := some 1 }
+    (by rw [extA_occurs, extB_occurs]; decide) (by decide)
+
+/-! ## 6. substitution groups
+
+An element reference whose element heads a substitution group stands for a choice between the
+head and the members, `substParticle`; `substituteSite` is what `AddAttributeSubstitutions` makes of
+the reference's attr (its `min`/`max` already the products over its path): the head and one clone per
+member, all optional, all with the reference's `max_occurs`. The first three statements are local
+(one reference with its group); `substitution_*_model` below are the statements for whole content
+models: `substP mem p` is the content model a schema with substitution groups stands for,
+`occursSubst mem (sites p)` what the FLATTEN handlers (`AddAttributeSubstitutions` included) compute
+for the class (`Proofs/SubstLift`). -/
+
+/-- **No field of a substitution group is required**: a valid document may always use another
+member instead. -/
+theorem substitution_never_required (members : List Str) (fresh : Nat) (s f : Site)
+    (hm : members ≠ []) (hf : f ∈ substituteSite members fresh s) : f.min = 0 :=
+  substituteSite_min hm hf
+
+/-- **A non-list field of a substitution group never sees its element twice** -/
+theorem substitution_nonlist_sound (members : List Str) (fresh : Nat) (s : Site) (w : List Str)
+    (hw : Matches (substParticle s.name members s.min s.max) w)
+    (f : Site) (hf : f ∈ substituteSite members fresh s) (hl : f.isList = false) :
+    w.count f.name ≤ 1 :=
+  substitution_nonlist_core members fresh s w hw f hf hl
+
+/-- **Converse sanity**: a list field of a substitution group is needed -/
+theorem substitution_list_needed (members : List Str) (fresh : Nat) (s : Site)
+    (hwf : s.min ≤ s.max) (f : Site) (hf : f ∈ substituteSite members fresh s)
+    (hl : f.isList = true) :
+    ∃ w, Matches (substParticle s.name members s.min s.max) w ∧ 2 ≤ w.count f.name :=
+  substitution_list_needed_core members fresh s hwf f hf hl
+
+/-- `<xs:element ref="h"/>` with `m` substitutable for `h` -/
+def exSubst : Site :=
+  { name := ['h'], index := 1, min := 1, max := 1, path := [⟨.s, 1, 1, 1⟩], sequence := some 1 }
+
+theorem exSubst_sites : substituteSite [['m']] 9 exSubst = [
+    { name := ['h'], index := 1, min := 0, max := 1, path := [⟨.s, 1, 1, 1⟩, ⟨.c, 9, 1, 1⟩],
+      choice := some 9, sequence := some 1 },
+    { name := ['m'], index := 1, min := 0, max := 1, path := [⟨.s, 1, 1, 1⟩, ⟨.c, 9, 1, 1⟩],
+      choice := some 9, sequence := some 1 }] := by
+  decide
+
+theorem exSubst_matches : Matches (substParticle ['h'] [['m']] 1 1) [['m']] :=
+  matches_choice.2 ⟨[[['m']]], by decide, (by
+    intro x hx
+    rw [List.mem_singleton.1 hx]
+    exact (choiceOnce_singles [['h'], ['m']] [['m']]).2 ⟨['m'], by decide, rfl⟩), rfl⟩
+
+/-- the hypotheses are satisfiable: the member's field, the word `[m]` -/
+example : List.count ['m'] [['m']] ≤ 1 :=
+  substitution_nonlist_sound [['m']] 9 exSubst _ exSubst_matches
+    { name := ['m'], index := 1, min := 0, max := 1, path := [⟨.s, 1, 1, 1⟩, ⟨.c, 9, 1, 1⟩],
+      choice := some 9, sequence := some 1 } (by rw [exSubst_sites]; decide) (by decide)
+
+/-- the member's field -/
+def exSubstM : Site :=
+  { name := ['m'], index := 1, min := 0, max := 1, path := [⟨.s, 1, 1, 1⟩, ⟨.c, 9, 1, 1⟩],
+    choice := some 9, sequence := some 1 }
+
+example : exSubstM.min = 0 :=
+  substitution_never_required [['m']] 9 exSubst exSubstM (by decide) (by rw [exSubst_sites]; decide)
+
+example : ∃ w, Matches (substParticle ['h'] [['m']] 0 3) w ∧ 2 ≤ w.count ['m'] :=
+  substitution_list_needed [['m']] 9 { exSubst with min := 0, max := 3 } (by decide)
+    { name := ['m'], index := 1, min := 0, max := 3, path := [⟨.s, 1, 1, 1⟩, ⟨.c, 9, 1, 1⟩],
+      choice := some 9, sequence := some 1 } (by decide) (by decide)
+
+/-- a running example: `(d, c)*`, `m` substitutable for `d` -/
+def exMem : Str → List Str := fun n => if n = ['d'] then [['m']] else []
+def exSP : Particle := .seq 0 maxsize [.elem ['d'] 1 1, .elem ['c'] 1 1]
+
+theorem exSP_substP : substP exMem exSP =
+    .seq 0 maxsize [.choice 1 1 [.elem ['d'] 1 1, .elem ['m'] 1 1], .elem ['c'] 1 1] := by
+  simp [substP, substPList, exMem, exSP]
+
+theorem exSP_occurs : occursSubst exMem (sites exSP) = [
+    { name := ['d'], index := 0, min := 0, max := maxsize,
+      path := [⟨.s, 1, 0, maxsize⟩, ⟨.c, 1000, 1, 1⟩], choice := some 1000, sequence := some 1 },
+    { name := ['m'], index := 0, min := 0, max := maxsize,
+      path := [⟨.s, 1, 0, maxsize⟩, ⟨.c, 1000, 1, 1⟩], choice := some 1000, sequence := some 1 },
+    { name := ['c'], index := 1, min := 0, max := maxsize, path := [⟨.s, 1, 0, maxsize⟩],
+      choice := none, sequence := some 1 }] := by
+  decide
+
+/-- **Substitution groups, whole content models: a non-list field never sees its element twice.**
+For every content model `p`, every assignment `mem` of members to element references such that the
+field names (element names and member names) are pairwise distinct, every word of the content
+model the schema stands for and every field of the class. -/
+theorem substitution_nonlist_sound_model (mem : Str → List Str) (p : Particle)
+    (hd : (names (substP mem p)).Nodup) (w : List Str) (hw : Matches (substP mem p) w)
+    (f : Site) (hf : f ∈ occursSubst mem (sites p)) (hl : f.isList = false) :
+    w.count f.name ≤ 1 :=
+  subst_nonlist_core mem p hd w hw f hf hl
+
+/-- **… a required non-list field finds its element exactly once** (a field of a substitution
+group is never required, `substitution_never_required`; the others keep their `min`). -/
+theorem substitution_required_sound_model (mem : Str → List Str) (p : Particle)
+    (hd : (names (substP mem p)).Nodup) (hwf : wf p = true) (w : List Str)
+    (hw : Matches (substP mem p) w)
+    (f : Site) (hf : f ∈ occursSubst mem (sites p)) (hr : f.min ≥ 1) (hl : f.isList = false) :
+    w.count f.name = 1 :=
+  subst_required_core mem p hd hwf w hw f hf hr hl
+
+/-- **… and a list field is needed.** -/
+theorem substitution_list_needed_model (mem : Str → List Str) (p : Particle)
+    (hd : (names (substP mem p)).Nodup) (hwf : wf p = true) (hlive : live p = true)
+    (f : Site) (hf : f ∈ occursSubst mem (sites p)) (hl : f.isList = true) :
+    ∃ w, Matches (substP mem p) w ∧ 2 ≤ w.count f.name :=
+  subst_list_needed_core mem p hd hwf hlive f hf hl
+
+/-- `(x, d?)` with `m` substitutable for `d` -/
+def exSQ : Particle := .seq 1 1 [.elem ['x'] 1 1, .elem ['d'] 0 1]
+
+theorem exSQ_matches : Matches (substP exMem exSQ) [['x'], ['m']] := by
+  have hx : Matches (.elem ['x'] 1 1) [['x']] := matches_elem.2 ⟨1, by decide, rfl⟩
+  have hm : Matches (.choice 0 1 [.elem ['d'] 1 1, .elem ['m'] 1 1]) [['m']] :=
+    matches_choice.2 ⟨[[['m']]], by decide, (by
+      intro y hy
+      rw [List.mem_singleton.1 hy]
+      exact choiceOnce_cons.2 (Or.inr (choiceOnce_cons.2 (Or.inl
+        (matches_elem.2 ⟨1, by decide, rfl⟩))))), rfl⟩
+  have : substP exMem exSQ =
+      .seq 1 1 [.elem ['x'] 1 1, .choice 0 1 [.elem ['d'] 1 1, .elem ['m'] 1 1]] := by
+    simp [substP, substPList, exMem, exSQ]
+  rw [this]
+  exact matches_seq.2 ⟨[[['x'], ['m']]], by decide, (by
+    intro z hz
+    rw [List.mem_singleton.1 hz]
+    exact seqOnce_cons.2 ⟨[['x']], [['m']], hx,
+      seqOnce_cons.2 ⟨[['m']], [], hm, seqOnce_nil.2 rfl, rfl⟩, rfl⟩), rfl⟩
+
+theorem exSQ_occurs : occursSubst exMem (sites exSQ) = [
+    { name := ['x'], index := 0, min := 1, max := 1, path := [⟨.s, 1, 1, 1⟩], sequence := some 1 },
+    { name := ['d'], index := 1, min := 0, max := 1, path := [⟨.s, 1, 1, 1⟩, ⟨.c, 1001, 1, 1⟩],
+      choice := some 1001, sequence := some 1 },
+    { name := ['m'], index := 1, min := 0, max := 1, path := [⟨.s, 1, 1, 1⟩, ⟨.c, 1001, 1, 1⟩],
+      choice := some 1001, sequence := some 1 }] := by
+  decide
+
+/-- the hypotheses are satisfiable: the member's field and the required field `x`, word `[x, m]` -/
+example : List.count ['m'] [['x'], ['m']] ≤ 1 :=
+  substitution_nonlist_sound_model exMem exSQ (by decide) _ exSQ_matches
+    { name := ['m'], index := 1, min := 0, max := 1, path := [⟨.s, 1, 1, 1⟩, ⟨.c, 1001, 1, 1⟩],
+      choice := some 1001, sequence := some 1 } (by rw [exSQ_occurs]; decide) (by decide)
+
+example : List.count ['x'] [['x'], ['m']] = 1 :=
+  substitution_required_sound_model exMem exSQ (by decide) (by decide) _ exSQ_matches
+    { name := ['x'], index := 0, min := 1, max := 1, path := [⟨.s, 1, 1, 1⟩], sequence := some 1 }
+    (by rw [exSQ_occurs]; decide) (by decide) (by decide)
+
+example : ∃ w, Matches (substP exMem exSP) w ∧ 2 ≤ w.count ['m'] :=
+  substitution_list_needed_model exMem exSP (by decide) (by decide) (by decide)
+    { name := ['m'], index := 0, min := 0, max := maxsize,
+      path := [⟨.s, 1, 0, maxsize⟩, ⟨.c, 1000, 1, 1⟩], choice := some 1000, sequence := some 1 }
+    (by rw [exSP_occurs]; decide) (by decide)
 
 end Props.C02
